@@ -4,6 +4,8 @@ Everything here is part of the trusted encoding of Python semantics (DESIGN 3.2)
 """
 import z3
 
+z3.set_param('warning', False)      # "if cannot be used in patterns": qforall retries without the pattern
+
 # ---------------------------------------------------------------- sort V
 _V = z3.Datatype('V')
 _Vr = z3.DatatypeSort('V')
